@@ -10,7 +10,7 @@ import itertools
 from fractions import Fraction
 
 from ..common import Rng
-from ..numenc import RM, e_ctx, e_fl, e_flags, e_err, mk_ctx
+from ..numenc import RM, e_ctx, e_fl, e_flags, e_err, mk_ctx, rto_dyadic
 from ..oracle import Oracle, enc
 
 MANIFEST = {
@@ -124,6 +124,54 @@ def run(ck):
                 if special or inexact:
                     ck.nontriv((name, str(sorted(d.items())), args))
     ck.count('not offered under this context (NotImplementedError)', not_offered)
+
+    # ---------------------------------------------------------------- Fraction / int / python-float operands
+    # A non-dyadic Fraction q is handed to the model as its round-to-odd image at >= 48 digits (lowest digit at 2^-14 or below, far below the
+    # unit position of every round-to-integer step and of every context here), which theorem N2 shows rounds like q itself.
+    fracs = [Fraction(n, dd) for dd in (3, 5, 7, 10) for n in (1, 2, 4, 5, 7, 8, 10, 11, 13, 16, 17, 22, 1001, 2 ** 40 + 1)] + \
+            [Fraction(5, 2), Fraction(7, 4), Fraction(9, 2), Fraction(1, 2), Fraction(3, 8), Fraction(1, 1000), Fraction(2 ** 70, 3)]
+    fracs = [s * q for q in fracs for s in (1, -1)]
+    exacts = [3, -7, 0, 12345, 2 ** 62 + 1, 2.5, -0.75, 1e-3, 6.5, -0.0, float('inf'), float('nan')]
+
+    def e_any(v):
+        if isinstance(v, Fraction):
+            s, e, c = rto_dyadic(v, max(48, abs(v.numerator).bit_length() - v.denominator.bit_length() + 16))
+            return e_fl(('fin', s, e, c))
+        if isinstance(v, int):
+            return e_fl(('fin', v < 0, 0, abs(v)))
+        if v != v:
+            return e_fl(('nan', False))
+        if v in (float('inf'), float('-inf')):
+            return e_fl(('inf', v < 0))
+        m, ex = Fraction(v).numerator, Fraction(v).denominator.bit_length() - 1
+        return e_fl(('fin', str(v).startswith('-'), -ex, abs(m)))
+    for d in ctxs:
+        ctx = fp.REAL if d['kind'] == 'real' else mk_ctx(d)
+        wire_ctx = e_ctx(d)
+        for name in ('floor', 'ceil', 'trunc', 'roundint', 'nearbyint', 'neg', 'fabs'):
+            if name == 'nearbyint' and d['kind'] == 'real' or name not in OPS:
+                continue
+            for v in (fracs if name not in ('neg', 'fabs') else []) + exacts:
+                if d['kind'] == 'real' and isinstance(v, float) and (v != v or v in (float('inf'), float('-inf'))):
+                    continue
+                r = attempt(lambda: getattr(ops, name)(v, ctx=ctx))
+                if isinstance(r, NotImplementedError):
+                    continue
+                lines.append(enc([OPS[name]] + wire_ctx + [1] + e_any(v) + e_obs(r)))
+                meta.append((name + '(Fraction/int/float operand)', f'{name}({v!r}) under {d}'))
+                ck.evaluations += 1
+                ck.count(name + '(Fraction/int/float operand)')
+                ck.nontriv((name, str(sorted(d.items())), repr(v)))
+        for name in ('add', 'sub', 'mul', 'div', 'fmod', 'remainder', 'mod', 'copysign', 'fdim'):
+            for a in exacts[:9]:
+                for b in (exacts[1], exacts[5], exacts[8], exacts[9]):
+                    r = attempt(lambda: getattr(ops, name)(a, b, ctx=ctx))
+                    if isinstance(r, NotImplementedError):
+                        continue
+                    lines.append(enc([OPS[name]] + wire_ctx + [2] + e_any(a) + e_any(b) + e_obs(r)))
+                    meta.append((name + '(int/float operands)', f'{name}({a!r}, {b!r}) under {d}'))
+                    ck.evaluations += 1
+                    ck.count(name + '(int/float operands)')
 
     # ---------------------------------------------------------------- directed double-rounding witnesses
     # exact results b +- 2^-j next to a breakpoint b of the target: only a sticky bit can tell them apart
